@@ -9,6 +9,7 @@ from __future__ import annotations
 
 import io
 import os
+import posixpath
 import re
 import zipfile
 from collections import Counter
@@ -200,7 +201,73 @@ def manufactured_deck(rnd, nslides=3):
         first = next((r_.target for r_ in pk.rels(pres) if r_.type.endswith("/slide")), None)
         src = rnd.choice([pres, pres, first or pres, "/"])
         data = renumber_rids(data, src, rnd.choice(["shifted", "gap", "gap", "foreign"]), rnd)
+    if rnd.random() < 0.5:
+        data = graft_foreign_parts(data, rnd)
     return data, nums
+
+
+_GRAFTS = {
+    # kind: (source, relationship type suffix, part name, content type, payload, declared by Default extension or None)
+    "commentAuthors": ("pres", "commentAuthors", "/ppt/commentAuthors.xml", "application/vnd.openxmlformats-officedocument.presentationml.commentAuthors+xml",
+                       b'<p:cmAuthorLst xmlns:p="http://schemas.openxmlformats.org/presentationml/2006/main"><p:cmAuthor id="0" name="A B" initials="AB" lastIdx="1" clrIdx="0"/></p:cmAuthorLst>', None),
+    "comments": ("slide", "comments", "/ppt/comments/comment1.xml", "application/vnd.openxmlformats-officedocument.presentationml.comments+xml",
+                 b'<p:cmLst xmlns:p="http://schemas.openxmlformats.org/presentationml/2006/main"><p:cm authorId="0" dt="2020-01-01T00:00:00.000" idx="1"><p:pos x="10" y="10"/><p:text>why?</p:text></p:cm></p:cmLst>', None),
+    "tags": ("slide", "tags", "/ppt/tags/tag1.xml", "application/vnd.openxmlformats-officedocument.presentationml.tags+xml",
+             b'<p:tagLst xmlns:p="http://schemas.openxmlformats.org/presentationml/2006/main"><p:tag name="K" val="v"/></p:tagLst>', None),
+    "customXml": ("pres", "customXml", "/customXml/item1.xml", None, b'<?xml version="1.0"?><root xmlns="urn:x-verif"><v>1</v></root>', "xml"),
+    "custom-properties": ("root", "custom-properties", "/docProps/custom.xml", "application/vnd.openxmlformats-officedocument.custom-properties+xml",
+                          b'<Properties xmlns="http://schemas.openxmlformats.org/officeDocument/2006/custom-properties" xmlns:vt="http://schemas.openxmlformats.org/officeDocument/2006/docPropsVTypes"><property fmtid="{D5CDD505-2E9C-101B-9397-08002B2CF9AE}" pid="2" name="k"><vt:lpwstr>v</vt:lpwstr></property></Properties>', None),
+    "font": ("pres", "font", "/ppt/fonts/font1.fntdata", "application/x-fontdata", bytes(range(256)) * 3, "fntdata"),
+    "slideUpdateInfo": ("slide", "slideUpdateInfo", "/ppt/slideUpdateInfo/slideUpdateInfo1.xml", "application/vnd.openxmlformats-officedocument.presentationml.slideUpdateInfo+xml",
+                        b'<p:sldSyncPr xmlns:p="http://schemas.openxmlformats.org/presentationml/2006/main" serverSldId="s" serverSldModifiedTime="2020-01-01T00:00:00" clientInsertedTime="2020-01-01T00:00:00"/>', None),
+}
+
+
+def graft_foreign_parts(data, rnd):
+    """One to three parts of kinds python-pptx has no class for (comment authors, comments, tags, custom XML with its
+    properties part, custom document properties, an embedded font, slide update info), hung on the presentation, a slide or
+    the package at zip level with a fresh relationship id, declared by Override or - where producers do - by Default."""
+    pk = opcx.Pkg.from_bytes(data)
+    out = dict(pk.members)
+    pres = [r_.target for r_ in pk.rels("/") if r_.type == opcx.RT_OFFICE_DOCUMENT][0]
+    slides = [r_.target for r_ in pk.rels(pres) if r_.type.endswith("/slide")]
+    ct = etree.fromstring(out["[Content_Types].xml"], opcx.PLAIN)
+    CT = "{http://schemas.openxmlformats.org/package/2006/content-types}"
+    for kind in rnd.sample(sorted(_GRAFTS), rnd.choice([1, 2, 3])):
+        where, rt, name, ctype, blob, default_ext = _GRAFTS[kind]
+        src = {"pres": pres, "root": "/", "slide": rnd.choice(slides) if slides else pres}[where]
+        if name[1:] in out:
+            continue
+        item = ("_rels/.rels" if src == "/" else opcx.rels_item_name(src).lstrip("/"))
+        if item in out:
+            root = etree.fromstring(out[item], opcx.PLAIN)
+        else:
+            root = etree.fromstring(b'<Relationships xmlns="%s"/>' % opcx.NS_PR.encode())
+        used = {r_.get("Id") for r_ in root}
+        rid = next("rId%d" % k for k in range(rnd.choice([1, len(used) + 1, len(used) + 7]), 10 ** 6) if "rId%d" % k not in used)
+        base = "/" if src == "/" else posixpath.dirname(src)
+        target = name[1:] if base == "/" else posixpath.relpath(name, base)
+        etree.SubElement(root, "{%s}Relationship" % opcx.NS_PR, Id=rid, Type="http://schemas.openxmlformats.org/officeDocument/2006/relationships/" + rt, Target=target)
+        out[item] = etree.tostring(root, xml_declaration=True, encoding="UTF-8", standalone=True)
+        out[name[1:]] = blob
+        exts = {d.get("Extension").lower(): d.get("ContentType") for d in ct if d.tag == CT + "Default"}
+        if default_ext and (default_ext not in exts or ctype is None or exts[default_ext] == ctype):
+            if default_ext not in exts:
+                ct.insert(0, etree.Element(CT + "Default", Extension=default_ext, ContentType=ctype or "application/xml"))
+        else:
+            etree.SubElement(ct, CT + "Override", PartName=name, ContentType=ctype or "application/xml")
+        if kind == "customXml":  # its properties part, related from the item itself
+            out["customXml/itemProps1.xml"] = b'<ds:datastoreItem xmlns:ds="http://schemas.openxmlformats.org/officeDocument/2006/customXml" ds:itemID="{00000000-0000-0000-0000-000000000001}"><ds:schemaRefs/></ds:datastoreItem>'
+            out["customXml/_rels/item1.xml.rels"] = (
+                b'<?xml version="1.0" encoding="UTF-8" standalone="yes"?><Relationships xmlns="%s"><Relationship Id="rId1" Type="http://schemas.openxmlformats.org/officeDocument/2006/relationships/customXmlProps" Target="itemProps1.xml"/></Relationships>' % opcx.NS_PR.encode()
+            )
+            etree.SubElement(ct, CT + "Override", PartName="/customXml/itemProps1.xml", ContentType="application/vnd.openxmlformats-officedocument.customXmlProperties+xml")
+    out["[Content_Types].xml"] = etree.tostring(ct, xml_declaration=True, encoding="UTF-8", standalone=True)
+    buf = io.BytesIO()
+    with zipfile.ZipFile(buf, "w", zipfile.ZIP_DEFLATED) as zf:
+        for name_, blob_ in out.items():
+            zf.writestr(name_, blob_)
+    return buf.getvalue()
 
 
 def renumber_rids(data, source, how, rnd):
